@@ -1,4 +1,5 @@
 import Cppcheck.Model.CondExpr
+import Cppcheck.Model.CondOpposite
 /-
 C03 — models of two checks of lib/checkcondition.cpp that report "always true / always false" for one comparison token:
   * `CheckCondition::checkCompareValueOutOfTypeRange`  (Known constant against the value range of the other operand's type)
@@ -68,6 +69,13 @@ def outOfRange (op : BinOp) (i : Nat) (valueTok typeTok : Expr) : Option Bool :=
       | none => none
       | some (typeMin, typeMax) => rangeVerdict op i kiv typeMin typeMax
   | _, _ => none
+
+/-- the value type cppcheck attached to a token describes the token's values under the semantics `S`: it is the token's
+    C type, or `bool` (sign not `signed`) on a 0/1-valued operator (`!`, comparison, `&&`, `||`) -/
+def vtOK (S : Sem) (e : Expr) : Bool :=
+  match e.ann.vt with
+  | some vt => vt == toVT (tyOf S e) || (vt.type == 0 && vt.sign != .signed && e.isBoolVal)
+  | none => true
 
 def boolWord (b : Bool) : String := if b then "true" else "false"
 
